@@ -368,8 +368,77 @@ def check_term(t):
     return None
 
 
+def generic_edges():
+    """Generic State classes at the edge of the annotation vocabulary (three defects of the pinned tree, repaired by
+    8fa0e51 / cc5df9d / 0ccda32; kept in the regular sweep so that they are reported again if they return)."""
+    out = []
+
+    class Base[T](State):
+        x: T
+
+    class Child(Base[int]):
+        pass
+    try:
+        Child(x="notint")
+        out.append("class Child(Base[int]): Child(x='notint') is accepted (the binding T=int is lost in the subclass)")
+    except Exception:  # noqa
+        pass
+    try:
+        class P2[A, B](State):
+            a: A
+            b: B
+
+        class H[T](State):
+            p: P2[T, str]
+        H[int](p=P2[int, str](a=1, b="s"))
+    except Exception as e:  # noqa
+        out.append(f"a two-parameter generic State re-specialised with a type variable (p: P2[T, str]) cannot be declared / built: {e!r}"[:220])
+    try:
+        class E(State):
+            t: tuple[()]
+        E(t=())
+    except Exception as e:  # noqa
+        out.append(f"an attribute annotated tuple[()] cannot be declared: {e!r}"[:200])
+    # the repaired shapes also accept exactly the conforming values (statement of C05, not only "can be declared")
+    def expect(label, thunk, ok):
+        try:
+            thunk()
+            good = True
+        except Exception:  # noqa
+            good = False
+        if good != ok:
+            out.append(f"{label}: {'rejected' if ok else 'accepted'}, expected the opposite")
+    try:
+        class GrandChild(Child):
+            z: str = "z"
+
+        class Child2[U](Base[int]):
+            y: U
+        expect("Child(x=1)", lambda: Child(x=1), True)
+        expect("Child(x=1).x == 1", lambda: (Child(x=1).x == 1) or 1 / 0, True)
+        expect("GrandChild(x=1)", lambda: GrandChild(x=1), True)
+        expect("GrandChild(x='s')", lambda: GrandChild(x="s"), False)
+        expect("Child2[str](x=1, y='s')", lambda: Child2[str](x=1, y="s"), True)
+        expect("Child2[str](x='s', y='s')", lambda: Child2[str](x="s", y="s"), False)
+        expect("Child2[str](x=1, y=2)", lambda: Child2[str](x=1, y=2), False)
+        expect("H[int](p=P2[int, str](a=1, b='s'))", lambda: H[int](p=P2[int, str](a=1, b="s")), True)
+        expect("H[int](p=P2[str, str](a='x', b='s'))", lambda: H[int](p=P2[str, str](a="x", b="s")), False)
+        expect("H[int](p=3)", lambda: H[int](p=3), False)
+        expect("E(t=())", lambda: E(t=()), True)
+        expect("E(t=(1,))", lambda: E(t=(1,)), False)
+        expect("E(t=[]).t == () (a sequence is converted to the tuple)", lambda: (E(t=[]).t == ()) or 1 / 0, True)
+        expect("E(t='')", lambda: E(t=""), False)
+    except Exception as e:  # noqa
+        out.append(f"generic edge shapes cannot be declared: {e!r}"[:200])
+    return out
+
+
 def main():
     sys.stdin.read()
+    ge = generic_edges()
+    if ge:
+        print(json.dumps(dict(reproduced=True, detail=dict(problems=ge), cases_tried=len(ge))))
+        return
     seed = int(os.environ.get("VERIF_SEED", "0") or 0)
     rng = random.Random(seed)
     depth = int(os.environ.get("C05_DEPTH", "3"))
